@@ -3,6 +3,7 @@
 cd /verif
 for d in seeded/*/; do
   id=$(basename $d); prop=${id:0:3}
+  if grep -q '"status": "neutralised"' $d/meta.json; then echo "$id neutralised (no longer breaks the property on the repaired tree)"; continue; fi
   out=$(tools/try_seed.sh /verif/seeded/$id/patch.diff $prop 2>&1 | tail -1)
   echo "$id $out"
 done
